@@ -32,7 +32,8 @@ func init() {
 			"minimal, all-optional-parts, each optional part alone, each absent, each vector at the exact maximum its container allows, boundary-biased lengths (min, min+1, 255, 256, 257, max) and typical random values; " +
 			"non-trivial = a value whose encoding was produced, decoded and compared (distinct by hash of kind + encoding); every strict prefix (<= 2 KiB) or a sample of prefixes is then offered to unmarshal; " +
 			"lifetime legs with the same round-trip oracle: batches of 2..8 values marshalled first (returned slices kept, not copied, hashed) and decoded afterwards, the same value marshalled twice, " +
-			"and 6 goroutines doing marshal / Gosched / unmarshal / compare concurrently",
+			"and 6 goroutines doing marshal / Gosched / unmarshal / compare concurrently; " +
+			"mutators of a marshalled message: clientHello with 1..4 PSK identities and binders of 32/48 bytes, marshal -> updateBinders (also after the HelloRetryRequest edit + cache reset) -> marshal/unmarshal/marshalWithoutBinders compared with a fresh value",
 		MinNontrivial:         12000,
 		MinNontrivialThorough: 150000,
 		Assumptions: []string{
@@ -80,6 +81,8 @@ func runC30(c *core.Ctx) {
 	// encodings must stay valid while the caller holds them (c30_batch.go)
 	c30Batches(c)
 	c30Concurrent(c)
+	// methods that edit or reuse the cached encoding (c30_mutators.go)
+	c30Mutators(c)
 }
 
 func modeName(mode, arg int) string {
